@@ -343,6 +343,9 @@ def run(ctx):
                site=db.fns[fid].span)
     ctx.floor("R14.3", 10)
 
+    check_element_guards(ctx, reach)
+    check_local_map_index(ctx, reach)
+
     # ---- R14.4 recursion
     comps = sccs(db, {n for n in reach if n in db.fns})
     tabled = {e["scc"]: e for e in table["recursion"]}
@@ -358,6 +361,170 @@ def run(ctx):
         else:
             ctx.ob("R14.4", key, False, "unbounded recursion driven by input nesting (%s); deep nesting overflows the stack" % desc, site=db.fns[c[0]].span)
     ctx.ob("R14.4", "count", len(comps) >= 8, "recursive SCCs reachable from the entry points: %d" % len(comps), nontrivial=False)
+
+
+def check_element_guards(ctx, reach):
+    """R14.5: an unwrap of a positional element access (get_index(k) / first / last) that is guarded by a length test
+    must be guarded *sufficiently*: the lengths that pass the guard must all contain the element."""
+    from facts import Operand
+    from pat import true_false_targets
+    db, prov = ctx.db, ctx.prov
+    INF = 10 ** 9
+    n = 0
+    for fid in sorted(reach):
+        f = db.fns.get(fid)
+        if f is None or f.file not in PIPELINE_FILES:
+            continue
+        cfg = None
+        for u in f.calls():
+            if not (u.path or "").endswith(("::Option::unwrap", "::Option::expect")):
+                continue
+            sl = narrow_calls(prov, f, u.args[0])
+            acc = [x for x in sl if (x.path or "").rsplit("::", 1)[-1] in ("get_index", "first", "last", "get_index_mut", "first_mut")]
+            if not acc:
+                continue
+            a = acc[0]
+            need = 0
+            if a.path.endswith(("get_index", "get_index_mut")) and len(a.args) > 1:
+                cv = prov.const_of(f, a.args[1])
+                if not cv or cv[0] != "int":
+                    continue
+                need = cv[1]
+            recv_fields = prov.slice(f, a.args[0]).fields
+            cfg = cfg or CFG(f)
+            # dominating guards on len()/is_empty() of the same collection
+            lo, hi = 0, INF
+            guarded = False
+            for b in f.blocks:
+                if b.cleanup or b.term.k != "switch" or not cfg.dominates(b.idx, u.bb) or b.idx == u.bb:
+                    continue
+                op = Operand(b.term.j["discr"])
+                cond = comparison_of(prov, f, op)
+                if cond is None:
+                    continue
+                kind, opname, c, lenop = cond
+                if not (prov.slice(f, lenop).fields & recv_fields):
+                    continue
+                tt, ft = true_false_targets(b.term)
+                on_true = any(cfg.dominates(x, u.bb) for x in tt)
+                on_false = any(cfg.dominates(x, u.bb) for x in ft)
+                if on_true == on_false:
+                    continue
+                guarded = True
+                tlo, thi = {"Eq": (c, c), "Ne": None, "Lt": (0, c - 1), "Le": (0, c), "Gt": (c + 1, INF), "Ge": (c, INF)}[opname] or (None, None)
+                if opname == "Ne":
+                    # true: len != c  (no single interval); false: len == c
+                    if on_false:
+                        lo, hi = max(lo, c), min(hi, c)
+                    elif c == 0:
+                        lo = max(lo, 1)
+                    continue
+                if on_true:
+                    lo, hi = max(lo, tlo), min(hi, thi)
+                else:
+                    # complement of [tlo, thi] intersected with the current range: keep the part that may contain 0 conservatively
+                    if tlo <= lo:
+                        lo = max(lo, thi + 1)
+                    elif thi >= hi:
+                        hi = min(hi, tlo - 1)
+            if not guarded:
+                continue
+            n += 1
+            ok = lo > need
+            ctx.ob("R14.5", "element-guard|%s|%s" % (f.id, a.path.rsplit("::", 1)[1]), ok,
+                   "the unwrap of `%s` is reached only with %d <= len%s" % (a.path.rsplit("::", 1)[1], lo, "" if hi >= INF else " <= %d" % hi) if ok else
+                   "the length guard before `%s(..).unwrap()` admits len in [%d, %s]: the element may not exist and the unwrap panics" % (a.path.rsplit("::", 1)[1], lo, "inf" if hi >= INF else hi),
+                   site="%s in %s" % (u.span, f.id))
+    ctx.ob("R14.5", "count", n >= 1, "length-guarded positional unwraps: %d" % n, nontrivial=False)
+
+
+def narrow_calls(prov, f, op):
+    from prov import narrow
+    return [t for _, t in narrow(prov, f, op).calls]
+
+
+def comparison_of(prov, f, op):
+    """if the switch operand is `len() OP const` or `is_empty()`: ('len', OP, const, len-receiver operand)"""
+    if op.place is None or op.place.proj:
+        return None
+    d = prov.defs(f)
+    ds = [x for x in d.defs.get(op.place.local, ()) if x[0] != "mutarg"]
+    if len(ds) != 1:
+        return None
+    kind, site = ds[0]
+    if kind == "call":
+        p = site.path or ""
+        if p.endswith("::is_empty"):
+            return ("len", "Eq", 0, site.args[0])
+        return None
+    rv = site.rv
+    if rv.k == "un" and rv.op == "Not":
+        inner = comparison_of(prov, f, rv.ops[0])
+        if inner:
+            neg = {"Eq": "Ne", "Ne": "Eq", "Lt": "Ge", "Ge": "Lt", "Gt": "Le", "Le": "Gt"}[inner[1]]
+            return (inner[0], neg, inner[2], inner[3])
+        return None
+    if rv.k == "bin" and rv.op in ("Eq", "Ne", "Lt", "Le", "Gt", "Ge"):
+        a, b = rv.ops
+        ca, cb = prov.const_of(f, a), prov.const_of(f, b)
+
+        def len_call(o):
+            if o.place is None or o.place.proj:
+                return None
+            dd = [x for x in d.defs.get(o.place.local, ()) if x[0] == "call"]
+            for _, t in dd:
+                if (t.path or "").endswith("::len"):
+                    return t.args[0]
+            return None
+        if cb and cb[0] == "int" and len_call(a) is not None:
+            return ("len", rv.op, cb[1], len_call(a))
+        if ca and ca[0] == "int" and len_call(b) is not None:
+            flip = {"Lt": "Gt", "Le": "Ge", "Gt": "Lt", "Ge": "Le", "Eq": "Eq", "Ne": "Ne"}[rv.op]
+            return ("len", flip, ca[1], len_call(b))
+    return None
+
+
+def check_local_map_index(ctx, reach):
+    """R14.6: `map[key]` on a map that is local to the function is dominated by an insertion of the same key
+    (for an index inside a closure: at the point where the closure is created)."""
+    db, prov = ctx.db, ctx.prov
+    n = 0
+    for fid in sorted(reach):
+        f = db.fns.get(fid)
+        if f is None or f.file not in PIPELINE_FILES or "{closure" not in f.id:
+            continue
+        for t in f.calls():
+            if not ((t.declared or "").endswith("ops::index::Index::index") and "HashMap" in (f.local_ty(t.args[0].place.local) if t.args[0].place is not None else "")):
+                continue
+            # the map is an upvar: find the parent's local
+            sites = prov.closure_sites().get(f.id, [])
+            for parent, agg in sites:
+                cfgp = CFG(parent)
+                dpar = prov.defs(parent)
+                # captured operands that are (refs to) local HashMaps created in the parent
+                for o in agg.rv.ops:
+                    if o.place is None:
+                        continue
+                    root = o.place.local
+                    for _ in range(3):
+                        ds = [x for x in dpar.defs.get(root, ()) if x[0] == "stmt" and x[1].rv.k == "ref"]
+                        if ds:
+                            root = ds[0][1].rv.place.local
+                        else:
+                            break
+                    if "HashMap<" not in parent.local_ty(root):
+                        continue
+                    created = any(k == "call" and (c.path or "").endswith(("HashMap::new", "Default>::default", "HashMap::with_capacity")) for k, c in dpar.defs.get(root, ()) if k == "call")
+                    if not created:
+                        continue
+                    ins = [c for c in parent.calls() if (c.path or "").endswith(("HashMap::insert", "HashMap::entry")) and root in {l for _, l in prov.slice(parent, c.args[0]).locals}]
+                    n += 1
+                    ok = any(cfgp.dominates(c.bb, agg.bb) for c in ins)
+                    ctx.ob("R14.6", "local-map-index|%s" % f.id, ok,
+                           "the indexed key was inserted into the local map before the closure that indexes it is created" if ok else
+                           "a local map is indexed (`map[key]`, panics when absent) in a closure created before any insertion into it dominates",
+                           site="%s in %s" % (t.span, f.id))
+    ctx.ob("R14.6", "count", n >= 1, "indexed local maps inside closures: %d" % n, nontrivial=False)
 
 
 def has_depth_guard(ctx, comp):
